@@ -9,6 +9,7 @@ import (
 	"os"
 	"path/filepath"
 	"sort"
+	"strings"
 )
 
 type Field struct {
@@ -150,6 +151,7 @@ func LoadSchema() error {
 func TableOf(t *TypeSchema, f *Field) *Table { return Tables[t.Module+"."+f.Table] }
 
 func NSize(ntype string) int {
+	ntype = strings.TrimPrefix(ntype, "def-") // "def-uint16": a defined type whose underlying type is uint16
 	switch ntype {
 	case "int8", "uint8", "byte":
 		return 1
